@@ -76,6 +76,37 @@ package lex
 //@   ensures forall x in 0..1114112 :: old(csMem(r, x)) ==> csMem(result, x)
 //@   ensures forall x in 0..1114112 :: (lo <= x && x <= hi) ==> csMem(result, x)
 
+// subtract (class subtraction [a-z-[aeiou]]): in place while the output does not overtake the input,
+// on a fresh array from then on; afterwards the set holds exactly the old members that are not in oth.
+//@ func charset.subtract
+//@   option slice-wf
+//@   option split-joins=inv-keep
+//@   requires csShape(*c) && csSorted(*c) && csShape(oth) && csSorted(oth) && otherarray(*c, oth)
+//@   modifies c, (*c)[0:cap(*c)]
+//@   ensures csShape(*c) && csSorted(*c)
+//@   ensures forall x in 0..1114112 :: csMem(*c, x) ==> old(csMem(*c, x)) && !old(csMem(oth, x))
+//@   ensures forall x in 0..1114112 :: old(csMem(*c, x)) && !old(csMem(oth, x)) ==> csMem(*c, x)
+//@   loop 1:
+//@     invariant sameslice(r, old(*c)) && 0 <= i && i <= len(r) && i % 2 == 0
+//@     invariant len(oth) % 2 == 0 && suffixof(oth, old(oth))
+//@     invariant (allocated && fresh(out)) || (!allocated && samearray(out, r) && cap(out) == cap(r) && len(out) <= i)
+//@     invariant forall k in i..len(r) :: r[k] == old((*c)[k])
+//@     invariant csShape(out) && csSorted(out) && forall k in 0..len(out) :: i > 0 && out[k] <= old((*c)[i-1])
+//@     invariant forall p in 0..len(old(oth)) - len(oth) :: i < len(r) ==> old(oth)[p] < old((*c)[i])
+//@     invariant forall p in 2..len(oth) :: i > 0 ==> oth[p] > old((*c)[i-1])
+//@     invariant len(oth) > 0 && i > 0 ==> oth[0] > old((*c)[i-1]) || oth[1] >= old((*c)[i-1])
+//@     invariant forall k in 0..len(out) :: forall x in 0..1114112 :: (k % 2 == 0 && out[k] <= x && x <= out[k+1]) ==> old(csMem(*c, x)) && !old(csMem(oth, x))
+//@     invariant forall x in 0..1114112 :: (i > 0 && x <= old((*c)[i-1]) && old(csMem(*c, x)) && !old(csMem(oth, x))) ==> csMem(out, x)
+//@   loop 2:
+//@     invariant sameslice(r, old(*c)) && 0 <= i && i + 1 < len(r) && i % 2 == 0 && hi == old((*c)[i+1]) && old((*c)[i]) <= lo && lo <= hi
+//@     invariant len(oth) % 2 == 0 && suffixof(oth, old(oth))
+//@     invariant (allocated && fresh(out)) || (!allocated && samearray(out, r) && cap(out) == cap(r) && len(out) <= i)
+//@     invariant forall k in i+2..len(r) :: r[k] == old((*c)[k])
+//@     invariant csShape(out) && csSorted(out) && forall k in 0..len(out) :: out[k] < lo
+//@     invariant forall p in 0..len(old(oth)) - len(oth) :: old(oth)[p] < lo
+//@     invariant forall k in 0..len(out) :: forall x in 0..1114112 :: (k % 2 == 0 && out[k] <= x && x <= out[k+1]) ==> old(csMem(*c, x)) && !old(csMem(oth, x))
+//@     invariant forall x in 0..1114112 :: (x < lo && old(csMem(*c, x)) && !old(csMem(oth, x))) ==> csMem(out, x)
+
 // ---- the table interpreter (C09) ----
 
 // isState(t, s): s names a row of the NumSymbols-wide transition matrix.
